@@ -103,6 +103,15 @@ func Safe(f func() error) (r Res) {
 // Build creates the schema object, adds rules then types. The first failing Add* call is
 // returned (the schema object is still returned for further calls).
 func Build(sp Spec) (*js.Schema, Res) {
+	s, r, _ := BuildSharing(sp, nil)
+	return s, r
+}
+
+// BuildSharing is Build, except that a type whose name is in shared is not created again: the
+// given object is added to the new root (the way an API description adds one set of type objects
+// to every schema it contains). It returns the type objects of the new root.
+func BuildSharing(sp Spec, shared map[string]jschema.Schema) (*js.Schema, Res, map[string]jschema.Schema) {
+	types := map[string]jschema.Schema{}
 	var oo []js.Option
 	if sp.KeysOptional {
 		oo = append(oo, js.KeysAreOptionalByDefault())
@@ -124,17 +133,21 @@ func Build(sp Spec) (*js.Schema, Res) {
 	}
 	for _, t := range sp.Types {
 		t := t
-		r := Safe(func() error {
+		obj, ok := shared[t.Name]
+		if !ok {
 			if t.Regex {
-				return s.AddType(t.Name, regex.New(t.Name, t.Text))
+				obj = regex.New(t.Name, t.Text)
+			} else {
+				obj = js.New(t.Name, t.Text)
 			}
-			return s.AddType(t.Name, js.New(t.Name, t.Text))
-		})
+		}
+		types[t.Name] = obj
+		r := Safe(func() error { return s.AddType(t.Name, obj) })
 		if !r.OK && first.OK {
 			first = r
 		}
 	}
-	return s, first
+	return s, first, types
 }
 
 func Check(s *js.Schema) Res { return Safe(func() error { return s.Check() }) }
